@@ -328,6 +328,11 @@ func runC10(c *Ctx) {
 		c.ob("C10-R4", vmPkg+".VM.runLoop#pc-bounded-by-code-length", rl.Pos(), ok, "the execution loop does not test pc < len(code)")
 	}
 
+	// ---- R12 the parser asserts nothing it has not established
+	c.rule("C10-R12", "PAN: the parser turns every byte sequence into a tree or a diagnostic, so it never panics on what it parsed itself: in pkg/parser every single-result type assertion is established (dominated by the ok-edge of a comma-ok assertion / type-switch arm of the same value, or all sources of the value are of the asserted type). `item.(*ast.Route)` on what parseRoute returned is not: `@ ws /chat {}` or `@ cron ...` inside a macro body comes back as another item kind and the assertion panics")
+	c.Sites["C10-R12#assertions"] = uncheckedAssertAudit(c, "C10-R12", []string{parserPkg}, nil)
+	c.ob("C10-R12", parserPkg+"#assertions-examined", token.NoPos, true, "")
+
 	// ---- R11 a full stack is reported
 	c.rule("C10-R11", "ERR: whatever the compiler emits is executed completely, or refused: the VM's Push caps the stack, and a value that does not fit must not vanish - the capacity-exceeded path of Push returns an error, panics, or records the overflow in a field of the VM that the run loop tests (with an error return behind the test). A push that is silently dropped leaves every later instruction working on a stack the compiler did not describe: an N-element literal with N above the cap yields a bogus `stack underflow`, or a wrong value")
 	if push := c.mustFn("C10-R11", vmPkg, "VM.Push"); push != nil {
